@@ -8,11 +8,14 @@
 # result: R=<value | E:<error> | PANIC>@<Position()>/<Len()>+<alloc> ; ...
 #         alloc: model = bytes requested from make(); implementation = runtime.MemStats.TotalAlloc delta
 #
-# case:   c12s <stream op> ... | <read op> ...   ONE stream: first C13's vocabulary (w<n> x<hex> r<n> s<whence>:<offset>
-#                                             t z, syntax of vlib/c13.py), then the read ops above
-# result: <c13S trace: ret b=<Bytes()> l=<Len()> p=<Position()> ; ...> || R=<as above>
-#         model = StreamOps.v for the first part, the state translation brg_oct (models/StreamReads.v, proved to make the two
-#         models agree in proofs/OctetsBridge.v), Octets.v readers for the second (theorem c12_reads_safe_after_any_ops)
+# case:   c12s <stream op> ... | <read op> ... | <stream op> ... | <read op> ...   ONE stream, segments in turn: C13's
+#                                             vocabulary (w<n> x<hex> r<n> s<whence>:<offset> t z, syntax of vlib/c13.py),
+#                                             then the read ops above, then stream ops again, ...
+# result: one part per segment joined by " || ": <c13S trace: ret b=<Bytes()> l=<Len()> p=<Position()> ; ...> for stream
+#         ops, R=<as above> B=<Bytes() afterwards> for read calls
+#         model = brg_phases (models/StreamReads.v): StreamOps.v for the stream-op segments, the state translations
+#         brg_oct / brg_stm (proved to make the two models agree in proofs/OctetsBridge.v), Octets.v readers for the read
+#         segments (theorems c12_reads_safe_after_any_ops, c12_reads_safe_in_any_alternation)
 import os
 
 from . import common, pure, octets
@@ -49,35 +52,66 @@ def compare(case, model, impl, strict=False):
     return compare_reads(model, impl, strict)
 
 
-def split_s(case):
-    """'c12s <stream ops> | <read ops>' -> ([stream op tokens], [read op tokens])"""
-    t = case.split()
-    k = t.index("|") if "|" in t else len(t)
-    return t[1:k], t[k + 1:]
+def segments(case):
+    """'c12s <stream ops> | <read ops> | <stream ops> | ...' -> [[tokens], ...] (even = stream ops, odd = read calls)"""
+    segs = [[]]
+    for tok in case.split()[1:]:
+        if tok == "|":
+            segs.append([])
+        else:
+            segs[-1].append(tok)
+    return segs
 
 
-def split_out_s(out):
-    """'<trace> || <reads part>' -> (trace, reads part) or None"""
-    if " || " not in out:
+def stream_toks(segs):
+    return [tok for k in range(0, len(segs), 2) for tok in segs[k]]
+
+
+def read_toks(segs):
+    return [tok for k in range(1, len(segs), 2) for tok in segs[k]]
+
+
+def parts_of(out):
+    """one part per segment; None if the line is not a c12s result"""
+    if out.startswith("PANIC") or out.startswith("MODEL-EXN") or out == "BADCASE":
         return None
-    a, _, b = out.partition(" || ")
-    return a.strip(), b.strip()
+    return [x.strip() for x in out.split(" || ")]
+
+
+def read_part(part):
+    """'R=<rds> B=<hex|PANIC>' -> (R field, B field) or None"""
+    f = parse_fields(part)
+    if f is None or "R" not in f or "B" not in f:
+        return None
+    return f["R"], f["B"]
 
 
 def compare_s(case, model, impl, strict=False):
-    pm, pi = split_out_s(model), split_out_s(impl)
+    pm, pi = parts_of(model), parts_of(impl)
     if pm is None:
         return "model produced no result (%s)" % model[:100]
     if pi is None:
         return "implementation produced no result (%s)" % impl[:100]
-    sops, _ = split_s(case)
-    note = stream_ops.compare("c13S " + " ".join(sops), pm[0], pi[0])
-    if note is not None:
-        return "stream operations: " + note
-    if not pm[1].startswith("R=") or not pi[1].startswith("R="):
-        return None if pm[1] == pi[1] else "read calls: model '%s' vs implementation '%s'" % (pm[1][:60], pi[1][:60])
-    note = compare_reads(pm[1], pi[1], strict)
-    return None if note is None else "read calls after the stream operations: " + note
+    segs = segments(case)
+    for k, seg in enumerate(segs):
+        if k >= len(pm) or k >= len(pi):
+            break
+        if k % 2 == 0:
+            note = stream_ops.compare("c13S " + " ".join(seg), pm[k], pi[k])
+            if note is not None:
+                return "segment %d (stream operations): %s" % (k, note)
+        else:
+            rm, ri = read_part(pm[k]), read_part(pi[k])
+            if rm is None or ri is None:
+                return "segment %d (read calls): unparsable result" % k
+            note = compare_reads("R=" + rm[0], "R=" + ri[0], strict)
+            if note is not None:
+                return "segment %d (read calls after %d stream ops): %s" % (k, len(stream_toks(segs[:k])), note)
+            if rm[1] != ri[1]:
+                return "segment %d (read calls): Bytes() afterwards differs: model %s vs implementation %s" % (k, rm[1][:60], ri[1][:60])
+    if len(pm) != len(pi):
+        return "number of segments run differs: model %d, implementation %d" % (len(pm), len(pi))
+    return None
 
 
 def compare_reads(model, impl, strict=False):
@@ -134,29 +168,59 @@ def monitor(case, impl):
 
 
 def monitor_s(case, impl):
-    """c12s: C13's FIFO reference monitor on the stream operations (the cursor must stay inside the data after every
-    op), then the C12 monitor on the read calls, started from the Bytes()/Len()/Position() the implementation showed
-    after the last stream op."""
-    pi = split_out_s(impl)
-    if pi is None:
+    """c12s: (1) C13's FIFO reference monitor over the WHOLE history -- every read segment enters it as one Read of as
+    many bytes as the typed calls consumed, returning the bytes that were unread before, and Bytes() after the segment
+    must be what the reference says is left (typed reads never disturb the buffer; the cursor stays inside the data
+    after every op); (2) the C12 monitor on every read segment, started from the Bytes()/Len()/Position() the
+    implementation showed before it."""
+    parts = parts_of(impl)
+    if parts is None:
         return ("panic", "no result / panic outside a call: " + impl[:200])
-    sops, rops = split_s(case)
-    mf = stream_ops.monitor("c13S " + " ".join(sops), pi[0])
+    segs = segments(case)
+    ptoks, plines, checks = [], [], []
+    unread, ln, pos = b"", 0, 0
+    broken = None
+    for k, seg in enumerate(segs):
+        if k >= len(parts):
+            break
+        if k % 2 == 0:
+            lines = stream_ops.split_trace(parts[k])
+            ptoks += seg
+            plines += lines
+            if lines:
+                o = stream_ops.parse_line("S", lines[-1])
+                if o is None or o["panic"] or o.get("b") == "PANIC":
+                    # the reference monitor reports it; the reads that follow show what the cursor does to a decoder
+                    if k + 1 < len(parts) and k + 1 < len(segs):
+                        rp = read_part(parts[k + 1])
+                        if rp is not None and "PANIC@" in rp[0]:
+                            broken = "; then read call #%d (%s) panicked" % next(
+                                (j, op) for j, (op, r) in enumerate(zip(segs[k + 1], rp[0].split(";"))) if r.startswith("PANIC@"))
+                    break
+                unread, ln, pos = bytes.fromhex(o["b"]), int(o["l"]), int(o["p"])
+        else:
+            rp = read_part(parts[k])
+            if rp is None:
+                return ("panic", "segment %d: read calls not run: %s" % (k, parts[k][:100]))
+            checks.append((bytes(pos) + unread, seg, rp[0], pos, "after %d stream ops, " % len(ptoks)))
+            rds = parse_rds(rp[0])
+            npos, nln = (rds[-1][1], rds[-1][2]) if rds else (pos, ln)
+            delta = npos - pos
+            if rp[1] == "PANIC" or delta < 0 or any(r[0] in ("PANIC", "GUARD") for r in rds):
+                break  # reported by the read monitor below
+            ptoks.append("r%d" % delta)
+            plines.append("R%d:%s%s b=%s l=%d p=%d" % (delta, unread[:delta].hex(), ":E" if delta == 0 else "", rp[1], nln, npos))
+            unread, ln, pos = bytes.fromhex(rp[1]), nln, npos
+    mf = stream_ops.monitor("c13S " + " ".join(ptoks), " ; ".join(plines))
     if mf is not None:
-        # the reads that follow show what the broken cursor does to a decoder
-        tail = ""
-        if pi[1].startswith("R=") and "PANIC@" in pi[1]:
-            tail = "; then read call #%d (%s) panicked" % next((k, op) for k, (op, r) in enumerate(zip(rops, pi[1][2:].split(";"))) if r.startswith("PANIC@"))
-        return ("stream-op-" + mf[0], "after the stream operations: " + mf[1] + tail)
-    if not pi[1].startswith("R="):
-        return ("panic", "read calls not run: " + pi[1][:100])
-    lines = stream_ops.split_trace(pi[0])
-    unread, pos0 = b"", 0
-    if lines:
-        o = stream_ops.parse_line("S", lines[-1])
-        unread, pos0 = bytes.fromhex(o["b"]), int(o["p"])
-    # the bytes in front of the cursor are not observable (and no forward read looks at them)
-    return monitor_reads(bytes(pos0) + unread, rops, pi[1][2:], pos0, "after %d stream ops, " % len(sops))
+        return ("stream-op-" + mf[0], "stream operations (read segments shown as r<bytes consumed>): " + mf[1] + (broken or ""))
+    for data, rops, field, pos0, prefix in checks:
+        mr = monitor_reads(data, rops, field, pos0, prefix)
+        if mr is not None:
+            return mr
+    if len(parts) != len(segs):
+        return ("panic", "%d segments run of %d" % (len(parts), len(segs)))
+    return None
 
 
 def monitor_reads(data, ops, field, pos0, prefix):
@@ -176,6 +240,8 @@ def monitor_reads(data, ops, field, pos0, prefix):
             return ("len-changed", what + ": Len() = %d" % ln)
         if not (0 <= npos <= ln):
             return ("cursor-out-of-bounds", what + ": Position() = %d outside [0, %d]" % (npos, ln))
+        if npos < pos:
+            return ("cursor-moved-back", what + ": Position() went from %d to %d" % (pos, npos))
         remaining = len(data) - pos
         if alloc > remaining + slack(remaining):
             return ("alloc-unbounded", what + ": allocated %d bytes with only %d bytes of input left" % (alloc, remaining))
@@ -200,11 +266,10 @@ def monitor_reads(data, ops, field, pos0, prefix):
 def nontrivial(case, model):
     if case.startswith("c12s"):
         # a Seek / Tidy / Reset in front of at least one read call that returns data or fails
-        sops, rops = split_s(case)
-        pm = split_out_s(model)
-        if pm is None or not pm[1].startswith("R=") or not rops:
+        segs = segments(case)
+        if parts_of(model) is None or not read_toks(segs):
             return False
-        return any(x[0] in "stz" for x in sops)
+        return any(x[0] in "stz" for x in stream_toks(segs))
     pm = parse_fields(model)
     if pm is None:
         return False
@@ -363,6 +428,21 @@ def gen_after_ops(rng, quick):
             ops.append("x" + octets.ref_encode("B", b"xyz").hex())
         reads = [t_ if t_ in "vBS" else rng.choice("sr") + t_ for t_, _ in vals] + rand_ops(rng, rng.below(3))
         out.append("c12s %s | %s" % (" ".join(ops), " ".join(reads)))
+    # alternations: stream ops | reads | stream ops | reads | ... (2-4 rounds) on one stream
+    for _ in range(1500 if quick else 25000):
+        segs = []
+        for _r in range(rng.range(2, 4)):
+            ops = []
+            for _o in range(rng.range(0, 4)):
+                if rng.chance(1, 4):
+                    t_, v = rng.choice([("i", rng.range(-5, 5)), ("v", rng.choice([0, 1, 127, 128, 300, -1])), ("B", bytes(rng.below(256) for _ in range(rng.below(5)))),
+                                        ("h", rng.range(-300, 300)), ("S", b"hi")])
+                    ops.append("x" + octets.ref_encode(t_, v).hex())
+                else:
+                    ops.append(rng.choice(S_ALPHA))
+            segs.append(" ".join(ops))
+            segs.append(" ".join(rand_ops(rng, rng.range(0, 4))))
+        out.append("c12s " + " | ".join(segs))
     # long random op sequences (C13's generator: boundary-biased offsets up to +-2^63), then random read sequences
     for c in stream_ops.gen_stream_random(rng, 300 if quick else 4000):
         out.append("c12s %s | %s" % (c[len("c13S "):], " ".join(rand_ops(rng, rng.range(1, 8)))))
@@ -396,25 +476,47 @@ Print bad.
     return len(items)
 
 
+def coq_stm_op(op):
+    if op[0] == "w":
+        return "SWrite %s" % octets.coq_zlist(list(op[1]))
+    if op[0] == "r":
+        return "SRead %d%%nat" % op[1]
+    if op[0] == "s":
+        return "SSeek (%d) (%d)" % (op[2], op[1])
+    return {"t": "STidy", "z": "SReset"}[op[0]]
+
+
 def coq_crosscheck_s(chk, cases, model_out):
     items = []
     for c, m in zip(cases, model_out):
-        pm = split_out_s(m)
-        if pm is None or not pm[1].startswith("R=") or len(c) > 400:
+        pm = parts_of(m)
+        segs = segments(c)
+        if pm is None or len(pm) != len(segs) or len(c) > 400:
             continue
-        sops, rops = split_s(c)
-        pseudo = "c13S " + " ".join(sops)
-        flat = stream_ops.flat_of_output("S", pm[0]) + [1]
-        for rd in parse_rds(pm[1][2:]):
-            flat += octets.flat_rd(rd)
-        items.append("(brg_case StmFixed OctFixed %s [%s], %s)" % (stream_ops.coq_ops("S", pseudo), ";".join(octets.coq_op(o) for o in rops),
-                                                                    octets.coq_zlist(["(%d)" % x for x in flat])))
+        _, ops = stream_ops.parse_case("c13S " + " ".join(stream_toks(segs)))
+        flat, terms = [], []
+        for k, seg in enumerate(segs):
+            if k % 2 == 0:
+                terms.append("BrgOps [%s]" % "; ".join(coq_stm_op(o) for o in ops[:len(seg)]))
+                ops = ops[len(seg):]
+                flat += [200] + stream_ops.flat_of_output("S", pm[k])
+            else:
+                terms.append("BrgReads [%s]" % ";".join(octets.coq_op(o) for o in seg))
+                r, b = read_part(pm[k])
+                flat += [201]
+                for rd in parse_rds(r):
+                    flat += octets.flat_rd(rd)
+                flat += [-2] if b == "PANIC" else [len(b) // 2] + list(bytes.fromhex(b))
+        items.append("(brg_phases StmFixed OctFixed stm_init [%s], %s)" % ("; ".join(terms), octets.coq_zlist(["(%d)" % x for x in flat])))
     if not items:
         return 0
     body = octets.COQ_FLAT + """From Got Require Import GoSlice StreamOps StreamReads.
-Definition fl_case (c : list stm_line * option (list (oct_rd oct_val))) : list Z :=
-  flat_map stm_flat_line (fst c) ++ match snd c with Some rs => 1 :: flat_map fl_rd rs | None => [0] end.
-Definition ok (c : (list stm_line * option (list (oct_rd oct_val))) * list Z) : bool := zl_eqb (fl_case (fst c)) (snd c).
+Definition fl_obs (o : brg_seg_obs) : list Z :=
+  match o with
+  | BrgOpsObs t => 200 :: flat_map stm_flat_line t
+  | BrgReadsObs rs b => 201 :: flat_map fl_rd rs ++ match b with Ok d => stm_flat_bytes d | _ => [-2] end
+  end.
+Definition ok (c : list brg_seg_obs * list Z) : bool := zl_eqb (flat_map fl_obs (fst c)) (snd c).
 Definition cases := [%s].
 Definition bad := Eval vm_compute in length (filter (fun c => negb (ok c)) cases).
 Print bad.
@@ -478,14 +580,21 @@ def run_all(chk, binary, streams):
     kinds, lens, allocs = {}, {}, 0
     for c, m in zip(cases, model):
         if c.startswith("c12s"):
-            ps = split_out_s(m)
-            if ps is None or not ps[1].startswith("R="):
+            ps = parts_of(m)
+            if ps is None:
                 continue
+            sg = segments(c)
             lens["after-stream-ops"] = lens.get("after-stream-ops", 0) + 1
-            for op, rd in zip(split_s(c)[1], parse_rds(ps[1][2:])):
-                typ = op[-1] if op[0] != "n" else "n"
-                key = "after-ops:" + typ + ":" + (rd[0] if rd[0].startswith("E:") or rd[0] == "PANIC" else "ok")
-                kinds[key] = kinds.get(key, 0) + 1
+            key = "c12s-segments:%d" % len(sg)
+            lens[key] = lens.get(key, 0) + 1
+            for k in range(1, min(len(sg), len(ps)), 2):
+                rp = read_part(ps[k])
+                if rp is None:
+                    continue
+                for op, rd in zip(sg[k], parse_rds(rp[0])):
+                    typ = op[-1] if op[0] != "n" else "n"
+                    key = "after-ops:" + typ + ":" + (rd[0] if rd[0].startswith("E:") or rd[0] == "PANIC" else "ok")
+                    kinds[key] = kinds.get(key, 0) + 1
             continue
         pm = parse_fields(m)
         if pm is None:
@@ -541,7 +650,8 @@ def run(chk):
                        "(truncated values, over-long 7-bit runs, prefixes larger than the rest up to 2^31-1, negative and non-canonical lengths), random read "
                        "sequences; reads-after-seek-tidy-reset: c12s cases = a sequence of stream operations (C13's vocabulary: every sequence up to length 2(3) over "
                        "19 ops incl. seeks before / behind the data and an invalid whence, random length-3(4) sequences, valid encodings partly consumed and "
-                       "re-read after a Seek / Tidy, long random sequences with offsets up to +-2^63) followed by typed read calls on the same stream; "
+                       "re-read after a Seek / Tidy, long random sequences with offsets up to +-2^63) followed by typed read calls on the same stream, and "
+                       "alternations of 2-4 rounds stream ops | reads | stream ops | reads; "
                        "non-trivial = some call fails or is a 7-bit / length-prefixed / raw read (c12s: a Seek/Tidy/Reset precedes the reads); distinct = distinct case line")
     chk.run_proof_gate(PROOFS)
     binary = pure.build_pure(chk)
